@@ -1,27 +1,20 @@
 (* Checkers used by the C03 correspondence: each takes (input, observed implementation result) and says
    whether the model agrees.  Observations are built by harness/props/c03.py. *)
 From AV Require Import Base.Prelude Model.Packet Model.Kex.
-From Coq Require Import Init.Byte Strings.Byte.
+From Coq Require Import Uint63.
 
-(* byte strings are written by the harness as hexadecimal string literals (fast to parse):
-   hx "00ff1a" = [0; 255; 26] *)
-Inductive bstr := BStr (l : list byte).
-Definition bstr_parse (l : list byte) : bstr := BStr l.
-Definition bstr_print (b : bstr) : list byte := match b with BStr l => l end.
-Declare Scope bstr_scope.
-Delimit Scope bstr_scope with bstr.
-String Notation bstr bstr_parse bstr_print : bstr_scope.
-Definition hexval (b : byte) : Z :=
-  let n := Z.of_N (Byte.to_N b) in if n <? 58 then n - 48 else n - 87.
-Fixpoint hx_go (l : list byte) : list Z :=
+(* byte strings are written by the harness as their length and a list of 63-bit integer literals holding
+   seven bytes each, big-endian, the last one holding the remainder (fast to parse):
+   wx 3 [0x00ff1a] = [0; 255; 26] *)
+Fixpoint wx (n : nat) (l : list int) : list Z :=
   match l with
-  | a :: b :: r => (hexval a * 16 + hexval b) :: hx_go r
-  | _ => []
+  | [] => []
+  | [w] => be n (Uint63.to_Z w)
+  | w :: r => be 7 (Uint63.to_Z w) ++ wx (n - 7) r
   end.
-Definition hx (s : bstr) : list Z := hx_go (bstr_print s).
 
 (* integers are written as sign and big-endian magnitude *)
-Definition zi (neg : bool) (s : bstr) : Z := let u := ube (hx s) in if neg then - u else u.
+Definition wi (neg : bool) (b : list Z) : Z := let u := ube b in if neg then - u else u.
 
 (* packet.py MPInt(v) = got *)
 Definition chk_mpint (c : Z * bytes) : bool :=
